@@ -1,4 +1,5 @@
 import OFCore.Equivariance
+import OFCore.Lemmas.Group
 import OFCore.Lemmas.EngineRanked
 import OFCore.Props.C01
 /-!
@@ -1186,6 +1187,358 @@ theorem vecAdd_reindex (l : List Nat) (x y : Val) (n : Nat) (hl : ∀ i ∈ l, i
     vecAdd (reindex l x) (reindex l y) = reindex l (vecAdd x y) := by
   unfold vecAdd
   exact (reindex_zipWith _ l x y (by rw [hx]; exact hl) (by rw [hy]; exact hl)).symm
+
+end
+
+/-! ## the group operations of the expression language are the transcribed `GroupPopulation` -/
+
+section
+open OFCore.Grp
+
+theorem declPop_ids (d : Decl) : (declPop d).ids = d.mem := by
+  simp only [declPop, Pop.ids, List.map_map, Function.comp_def]
+  exact map_getD_range d.mem
+
+theorem declPop_len (d : Decl) : (declPop d).ms.length = d.mem.length := by simp [declPop]
+
+theorem declPop_getD (d : Decl) (i : Nat) (hi : i < d.mem.length) :
+    (declPop d).ms.getD i default = ⟨d.mem.getD i 0, d.roles.getD i 0⟩ := by
+  simp [declPop, List.getD_eq_getElem?_getD, List.getElem?_map, List.getElem?_range hi]
+
+theorem declPop_group_lt (d : Decl) (hg : ∀ g ∈ d.mem, g < d.nG) : ∀ m ∈ (declPop d).ms, m.group < (declPop d).n := by
+  intro m hm
+  simp only [declPop, List.mem_map, List.mem_range] at hm
+  obtain ⟨i, hi, rfl⟩ := hm
+  exact hg _ (mem_getD_mem d.mem i hi)
+
+theorem roleOk_digit (r ρ : Nat) (g : Nat) (hr : r ≤ 9) (hρ : ρ < 8) :
+    roleOk (roleOfDigit r) ⟨g, ρ⟩ = roleMatch r ρ := by
+  unfold roleOfDigit roleMatch
+  by_cases h9 : r = 9
+  · simp [h9, roleOk]
+  · by_cases h8 : r = 8
+    · subst h8
+      simp only [roleOk, Role.holds, if_neg h9, if_true]
+      have : ρ = 0 ∨ ρ = 1 ∨ 2 ≤ ρ := by omega
+      rcases this with h | h | h
+      · subst h; decide
+      · subst h; decide
+      · have h0 : ρ ≠ 0 := by omega
+        have h1 : ρ ≠ 1 := by omega
+        have h2 : ¬ ρ < 2 := by omega
+        have h3 : ρ ≠ 8 := by omega
+        simp [h0, h1, h2, h3, Ne.symm h0, Ne.symm h1]
+    · simp only [roleOk, Role.holds, if_neg h9, if_neg h8, List.isEmpty_nil, if_true]
+      simp only [h9, h8, false_or, false_and, or_false]
+      by_cases h : ρ = r <;> simp [h]
+
+/-- the values of the holders of a role digit in a group: the two models say the same -/
+theorem valuesOf_declPop_digit (d : Decl) (hρ : ∀ ρ ∈ d.roles, ρ < 8) (r : Nat) (hr : r ≤ 9) (x : Val)
+    (hx : x.length = d.mem.length) (g : Nat) :
+    valuesOf (declPop d) (roleOfDigit r) g x = holderVals d r x g := by
+  rw [valuesOf_eq_idx (declPop d) x 0 (by rw [declPop_len]; exact hx), declPop_ids]
+  unfold holderVals membersIdx
+  rw [List.filter_filter]
+  congr 1
+  apply List.filter_congr
+  intro i hi
+  have hi' := List.mem_range.mp hi
+  have hρi : d.roles.getD i 0 < 8 := by
+    by_cases h : i < d.roles.length
+    · rw [List.getD_eq_getElem?_getD, List.getElem?_eq_getElem h]; exact hρ _ (List.getElem_mem h)
+    · rw [List.getD_eq_getElem?_getD, List.getElem?_eq_none (by omega)]; decide
+  rw [declPop_getD d i hi', roleOk_digit r _ _ hr hρi]
+  have h1 : (d.mem.getD i 0 == g) = decide (d.mem.getD i 0 = g) := by
+    rw [Bool.eq_iff_iff, beq_iff_eq, decide_eq_true_iff]
+  show (roleMatch r (d.roles.getD i 0) && (d.mem.getD i 0 == g))
+    = decide (d.mem.getD i 0 = g ∧ roleMatch r (d.roles.getD i 0) = true)
+  rw [h1]
+  by_cases h : d.mem.getD i 0 = g <;> cases h2 : roleMatch r (d.roles.getD i 0) <;> simp [h]
+
+theorem foldl_add_sum (l : List Int) (a : Int) : l.foldl (· + ·) a = a + l.sum := by
+  induction l generalizing a with
+  | nil => simp
+  | cons b t ih => simp only [List.foldl_cons, List.sum_cons, ih]; omega
+
+
+theorem foldl_maxE (l : List Int) (hne : l ≠ []) :
+    (l.map EInt.fin).foldl EInt.max .negInf = .fin (listMax l) := by
+  obtain ⟨m, hm, e, hb⟩ := (Grp.foldl_max_spec l).2 hne
+  obtain ⟨h1, h2⟩ := listMax_spec l hne
+  have := hb _ h1
+  have := h2 _ hm
+  rw [e]; congr 1; omega
+
+theorem foldl_minE (l : List Int) (hne : l ≠ []) :
+    (l.map EInt.fin).foldl EInt.min .posInf = .fin (listMin l) := by
+  obtain ⟨m, hm, e, hb⟩ := (Grp.foldl_min_spec l).2 hne
+  obtain ⟨h1, h2⟩ := listMin_spec l hne
+  have := hb _ h1
+  have := h2 _ hm
+  rw [e]; congr 1; omega
+
+/-- The group operations of the expression language (`RuleSys.f1`, stated over index sets) ARE what
+    the transcription of `GroupPopulation` (`Group.lean`, tied to the code by C10's
+    correspondence) computes on the population of the declaration. -/
+theorem f1_is_group_model (d : Decl) (hm : d.mem.length = d.nP) (hg : ∀ g ∈ d.mem, g < d.nG)
+    (hρ : ∀ ρ ∈ d.roles, ρ < 8) (r : Nat) (hr : r ≤ 9) (x : Val) (hx : x.length = d.nP)
+    (y : Val) (hy : y.length = d.nG) :
+    groupSum (declPop d) x none = .ok (f1 d 1 x) ∧
+    project (declPop d) y 0 none = .ok (f1 d 2 y) ∧
+    groupSum (declPop d) x (roleOfDigit r) = .ok (f1 d (10 + r) x) ∧
+    nbPersons (declPop d) (roleOfDigit r) = .ok (f1 d (30 + r) x) ∧
+    groupAnyI (declPop d) x (roleOfDigit r) = .ok ((f1 d (40 + r) x).map fun v => decide (v ≠ 0)) ∧
+    project (declPop d) y 0 (roleOfDigit r) = .ok (f1 d (80 + r) y) ∧
+    (d.nP ≠ 0 →
+      (∃ mx, groupMax (declPop d) x (roleOfDigit r) = .ok mx ∧ mx.map eint0 = f1 d (50 + r) x) ∧
+      (∃ mn, groupMin (declPop d) x (roleOfDigit r) = .ok mn ∧ mn.map eint0 = f1 d (60 + r) x) ∧
+      groupAll (declPop d) (x.map fun v => decide (v ≠ 0)) (roleOfDigit r)
+        = .ok ((f1 d (70 + r) x).map fun v => decide (v ≠ 0))) := by
+  have hlen : x.length = (declPop d).ms.length := by rw [declPop_len]; omega
+  have hxm : x.length = d.mem.length := by omega
+  have hgp := declPop_group_lt d hg
+  have hn : (declPop d).n = d.nG := rfl
+  have hv9 : ∀ g, valuesOf (declPop d) none g x = holderVals d 9 x g := fun g =>
+    valuesOf_declPop_digit d hρ 9 (by omega) x hxm g
+  have hv : ∀ g, valuesOf (declPop d) (roleOfDigit r) g x = holderVals d r x g := fun g =>
+    valuesOf_declPop_digit d hρ r hr x hxm g
+  have hsum : ∀ g, (holderVals d r x g).sum = roleSum d r x g := by
+    intro g; rw [roleSum_eq, foldl_add_sum]; omega
+  have hm9 : ∀ ρ, roleMatch 9 ρ = true := by intro ρ; simp [roleMatch]
+  have hsum1 : ∀ g, (holderVals d 9 x g).sum = grpSum d.mem x g := by
+    intro g
+    rw [grpSum_eq_idxSum d.mem x hxm g]
+    unfold holderVals idxSum
+    have hf : (List.range d.mem.length).filter (fun i => decide (d.mem.getD i 0 = g ∧ roleMatch 9 (d.roles.getD i 0) = true))
+        = (List.range d.mem.length).filter (fun i => decide (d.mem.getD i 0 = g)) := by
+      apply List.filter_congr
+      intro i _
+      simp [hm9]
+    rw [hf]
+    have := foldl_add_sum (((List.range d.mem.length).filter (fun i => decide (d.mem.getD i 0 = g))).map fun i => x.getD i 0) 0
+    rw [List.foldl_map] at this
+    rw [this]; omega
+  have hylen : y.length = (declPop d).n := by rw [hn]; exact hy
+  refine ⟨?_, ?_, ?_, ?_, ?_, ?_, ?_⟩
+  · rw [groupSum_eq _ x none hlen hgp, f1_one, hn]
+    congr 1
+    apply List.map_congr_left
+    intro g _
+    rw [hv9 g, hsum1 g]
+  · rw [project_eq _ y 0 none hylen hgp, f1_two]
+    congr 1
+    simp only [declPop, List.map_map, Function.comp_def, roleOk, if_true]
+    conv => rhs; rw [← map_getD_range d.mem, List.map_map]
+    rfl
+  · rw [groupSum_eq _ x _ hlen hgp, f1_role d (10 + r) (by simp [isRoleOp]; omega), hn]
+    congr 1
+    apply List.map_congr_left
+    intro g _
+    rw [hv g, hsum g]
+    simp only [roleFn, if_pos (show 10 ≤ 10 + r ∧ 10 + r < 20 by omega), Nat.add_sub_cancel_left]
+  · rw [nbPersons_eq_sum_ones _ _ hgp]
+    have hones : ((declPop d).ms.map fun _ => (1 : Int)) = List.replicate d.mem.length 1 := by
+      rw [← declPop_len d]
+      generalize (declPop d).ms = L
+      induction L with
+      | nil => rfl
+      | cons _ _ ih => simp [List.replicate_succ, ih]
+    rw [hones, groupSum_eq _ _ _ (by simp [declPop_len]) hgp,
+      f1_role d (30 + r) (by simp [isRoleOp]; omega), hn]
+    congr 1
+    apply List.map_congr_left
+    intro g _
+    rw [valuesOf_declPop_digit d hρ r hr _ (by simp) g]
+    simp only [roleFn, if_neg (show ¬(10 ≤ 30 + r ∧ 30 + r < 20) by omega),
+      if_neg (show ¬(20 ≤ 30 + r ∧ 30 + r < 30) by omega),
+      if_pos (show 30 ≤ 30 + r ∧ 30 + r < 40 by omega), Nat.add_sub_cancel_left]
+    rw [roleSum_eq, foldl_add_sum]; omega
+  · unfold groupAnyI
+    rw [groupSum_eq _ x _ hlen hgp, f1_role d (40 + r) (by simp [isRoleOp]; omega), hn]
+    simp only [List.map_map]
+    congr 1
+    apply List.map_congr_left
+    intro g _
+    simp only [Function.comp, roleFn, if_neg (show ¬(10 ≤ 40 + r ∧ 40 + r < 20) by omega),
+      if_neg (show ¬(20 ≤ 40 + r ∧ 40 + r < 30) by omega), if_neg (show ¬(30 ≤ 40 + r ∧ 40 + r < 40) by omega),
+      if_pos (show 40 ≤ 40 + r ∧ 40 + r < 50 by omega), Nat.add_sub_cancel_left]
+    have hs : (valuesOf (declPop d) (roleOfDigit r) g x).sum = roleSum d r x g := by rw [hv g, hsum g]
+    simp only [hs]
+    by_cases h : roleSum d r x g > 0
+    · simp [h]
+    · simp [h]
+  · rw [project_eq _ y 0 _ hylen hgp, f1_rproj d (80 + r) (by simp [isProjOp]; omega)]
+    congr 1
+    simp only [declPop, List.map_map, Function.comp_def, Nat.add_sub_cancel_left]
+    apply List.map_congr_left
+    intro i hi
+    have hρi : d.roles.getD i 0 < 8 := by
+      by_cases h : i < d.roles.length
+      · rw [List.getD_eq_getElem?_getD, List.getElem?_eq_getElem h]; exact hρ _ (List.getElem_mem h)
+      · rw [List.getD_eq_getElem?_getD, List.getElem?_eq_none (by omega)]; decide
+    rw [roleOk_digit r _ _ hr hρi]
+  · intro hnp
+    have hne : (declPop d).ms ≠ [] := by
+      intro h
+      have h2 := congrArg List.length h
+      rw [declPop_len] at h2
+      simp only [List.length_nil] at h2
+      omega
+    refine ⟨⟨_, groupMax_eq _ x _ hlen hne hgp, ?_⟩, ⟨_, groupMin_eq _ x _ hlen hne hgp, ?_⟩, ?_⟩
+    · rw [f1_role d (50 + r) (by simp [isRoleOp]; omega), hn, List.map_map]
+      apply List.map_congr_left
+      intro g _
+      simp only [Function.comp, roleFn, if_neg (show ¬(10 ≤ 50 + r ∧ 50 + r < 20) by omega),
+        if_neg (show ¬(20 ≤ 50 + r ∧ 50 + r < 30) by omega), if_neg (show ¬(30 ≤ 50 + r ∧ 50 + r < 40) by omega),
+        if_neg (show ¬(40 ≤ 50 + r ∧ 50 + r < 50) by omega),
+        if_pos (show 50 ≤ 50 + r ∧ 50 + r < 60 by omega), Nat.add_sub_cancel_left]
+      rw [hv g]
+      by_cases he : holderVals d r x g = []
+      · rw [he]; rfl
+      · rw [foldl_maxE _ he]; rfl
+    · rw [f1_role d (60 + r) (by simp [isRoleOp]; omega), hn, List.map_map]
+      apply List.map_congr_left
+      intro g _
+      simp only [Function.comp, roleFn, if_neg (show ¬(10 ≤ 60 + r ∧ 60 + r < 20) by omega),
+        if_neg (show ¬(20 ≤ 60 + r ∧ 60 + r < 30) by omega), if_neg (show ¬(30 ≤ 60 + r ∧ 60 + r < 40) by omega),
+        if_neg (show ¬(40 ≤ 60 + r ∧ 60 + r < 50) by omega), if_neg (show ¬(50 ≤ 60 + r ∧ 60 + r < 60) by omega),
+        if_pos (show 60 ≤ 60 + r ∧ 60 + r < 70 by omega), Nat.add_sub_cancel_left]
+      rw [hv g]
+      by_cases he : holderVals d r x g = []
+      · rw [he]; rfl
+      · rw [foldl_minE _ he]; rfl
+    · rw [groupAll_eq _ _ _ (by simpa using hlen) hne hgp,
+        f1_role d (70 + r) (by simp [isRoleOp]; omega), hn, List.map_map]
+      congr 1
+      apply List.map_congr_left
+      intro g _
+      simp only [Function.comp, roleFn, if_neg (show ¬(10 ≤ 70 + r ∧ 70 + r < 20) by omega),
+        if_neg (show ¬(20 ≤ 70 + r ∧ 70 + r < 30) by omega), if_neg (show ¬(30 ≤ 70 + r ∧ 70 + r < 40) by omega),
+        if_neg (show ¬(40 ≤ 70 + r ∧ 70 + r < 50) by omega), if_neg (show ¬(50 ≤ 70 + r ∧ 70 + r < 60) by omega),
+        if_neg (show ¬(60 ≤ 70 + r ∧ 70 + r < 70) by omega), Nat.add_sub_cancel_left]
+      rw [valuesOf_map, hv g, List.all_map]
+      unfold listAll
+      by_cases hall : (holderVals d r x g).all (fun a => decide (a ≠ 0)) = true
+      · rw [if_pos hall]
+        simpa [Function.comp_def] using hall
+      · rw [if_neg hall]
+        have : ((holderVals d r x g).all (id ∘ fun v => decide (v ≠ 0))) = false := by
+          simpa [Function.comp_def] using hall
+        rw [this]; rfl
+
+/-- `value_from_person(x, role)` for a role digit held at most once per group: the model of the
+    code gives what the expression language's operation 20 + r gives -/
+theorem f1_from_person_is_group_model (d : Decl) (hm : d.mem.length = d.nP) (hg : ∀ g ∈ d.mem, g < d.nG)
+    (hρ : ∀ ρ ∈ d.roles, ρ < 8) (r : Nat) (hr : r < 8) (x : Val) (hx : x.length = d.nP)
+    (hu : ∀ g, g < d.nG → (holderVals d r x g).length ≤ 1) :
+    valueFromPerson (declPop d) x ⟨r, [], some 1⟩ 0 = .ok (f1 d (20 + r) x) := by
+  have hlen : x.length = (declPop d).ms.length := by rw [declPop_len]; omega
+  have hxm : x.length = d.mem.length := by omega
+  have hgp := declPop_group_lt d hg
+  have hrole : roleOfDigit r = some ⟨r, [], some 1⟩ := by
+    unfold roleOfDigit; rw [if_neg (by omega), if_neg (by omega)]
+  have hv : ∀ g, valuesOf (declPop d) (some ⟨r, [], some 1⟩) g x = holderVals d r x g := fun g => by
+    rw [← hrole]; exact valuesOf_declPop_digit d hρ r (by omega) x hxm g
+  rw [valueFromPerson_eq _ x _ 0 rfl hlen hgp (fun g hgn => by rw [hv g]; exact hu g hgn),
+    f1_role d (20 + r) (by simp [isRoleOp]; omega)]
+  congr 1
+  apply List.map_congr_left
+  intro g hgm
+  have hgn : g < d.nG := List.mem_range.mp hgm
+  simp only [roleFn, if_neg (show ¬(10 ≤ 20 + r ∧ 20 + r < 20) by omega),
+    if_pos (show 20 ≤ 20 + r ∧ 20 + r < 30 by omega), Nat.add_sub_cancel_left]
+  rw [hv g, roleSum_eq, foldl_add_sum]
+  have := hu g hgn
+  match hL : holderVals d r x g with
+  | [] => rfl
+  | [a] => simp
+  | _ :: _ :: _ => rw [hL] at this; simp at this
+
+/-! ## parts of a group population: the order-dependent operations under merge -/
+
+theorem increasing_eq_of_mem_iff (l₁ l₂ : List Nat) (h1 : l₁.Pairwise (· < ·)) (h2 : l₂.Pairwise (· < ·))
+    (h : ∀ a, a ∈ l₁ ↔ a ∈ l₂) : l₁ = l₂ := by
+  have n1 : l₁.Nodup := h1.imp (fun hab => Nat.ne_of_lt hab)
+  have n2 : l₂.Nodup := h2.imp (fun hab => Nat.ne_of_lt hab)
+  have hp : l₁.Perm l₂ := (List.perm_ext_iff_of_nodup n1 n2).mpr h
+  exact List.Perm.eq_of_pairwise (le := (· < ·)) (fun a b _ _ hab hba => absurd hab (Nat.lt_asymm hba)) h1 h2 hp
+
+/-- the members of a kept group, with their values, are the same list in the part and in the whole -/
+theorem valuesOf_restrictPop {α : Type} (p : Pop) (sel gsel : List Nat) (hcl : ClosedPop p sel gsel)
+    (a : List α) (d : α) (ha : a.length = p.ms.length) (g' : Nat) (hg' : g' < gsel.length) :
+    valuesOf (restrictPop p sel gsel) none g' (selArr sel a d) = valuesOf p none (gsel.getD g' 0) a := by
+  obtain ⟨hsel, hgsel, hinc, hnd, hiff⟩ := hcl
+  rw [valuesOf_none_eq_idx p a d ha]
+  have hz : (restrictPop p sel gsel).ms.zip (selArr sel a d)
+      = sel.map (fun i => ((⟨posIn gsel (p.ms.getD i default).group, (p.ms.getD i default).role⟩ : Member), a.getD i d)) := by
+    simp only [restrictPop, selArr]
+    exact zip_map_same sel _ _
+  unfold valuesOf
+  rw [hz, List.filter_map, List.map_map]
+  have hfil : sel.filter ((fun ma : Member × α => ma.1.group == g' && roleOk none ma.1) ∘
+        fun i => ((⟨posIn gsel (p.ms.getD i default).group, (p.ms.getD i default).role⟩ : Member), a.getD i d))
+      = membersIdx p.ids (gsel.getD g' 0) := by
+    apply increasing_eq_of_mem_iff
+    · exact hinc.filter _
+    · exact membersIdx_pairwise_lt _ _
+    · intro i
+      have hidl : p.ids.length = p.ms.length := by simp [Pop.ids]
+      have hidg : p.ids.getD i 0 = (p.ms.getD i default).group := getD_map' p.ms (·.group) i default
+      simp only [List.mem_filter, Function.comp, roleOk, Bool.and_true, beq_iff_eq, membersIdx, List.mem_range, hidl, hidg]
+      constructor
+      · rintro ⟨his, hpos⟩
+        have hil := hsel i his
+        have hgin := (hiff i hil).mp his
+        exact ⟨hil, (posIn_eq_iff gsel hnd _ g' hgin hg').mp hpos⟩
+      · rintro ⟨hil, hgeq⟩
+        have hgin : (p.ms.getD i default).group ∈ gsel := by
+          rw [hgeq]; exact mem_getD_mem gsel g' hg'
+        exact ⟨(hiff i hil).mpr hgin, (posIn_eq_iff gsel hnd _ g' hgin hg').mpr hgeq⟩
+  rw [hfil]
+  rfl
+
+
+theorem restrictPop_wf (p : Pop) (sel gsel : List Nat) (hcl : ClosedPop p sel gsel) :
+    ∀ m ∈ (restrictPop p sel gsel).ms, m.group < (restrictPop p sel gsel).n := by
+  intro m hm
+  simp only [restrictPop, List.mem_map] at hm
+  obtain ⟨i, hi, rfl⟩ := hm
+  exact posIn_lt gsel _ ((hcl.2.2.2.2 i (hcl.1 i hi)).mp hi)
+
+/-- MERGE for the order-dependent operation: the n-th member of every kept group is the same
+    person in the part as in the whole -/
+theorem valueNth_restrictPop {α : Type} (p : Pop) (sel gsel : List Nat) (hcl : ClosedPop p sel gsel)
+    (hg : ∀ m ∈ p.ms, m.group < p.n) (a : List α) (d : α) (ha : a.length = p.ms.length) (hne : sel ≠ []) (k : Nat) :
+    ∃ r, valueNth p k a d = .ok r ∧ r.length = p.n ∧
+      valueNth (restrictPop p sel gsel) k (selArr sel a d) d = .ok (selArr gsel r d) := by
+  have hpne : p.ms ≠ [] := by
+    intro h
+    cases hs : sel with
+    | nil => exact hne hs
+    | cons i _ =>
+      have := hcl.1 i (by rw [hs]; simp)
+      rw [h] at this; simp at this
+  have hqne : (restrictPop p sel gsel).ms ≠ [] := by
+    intro h
+    have := congrArg List.length h
+    simp only [restrictPop, List.length_map, List.length_nil] at this
+    exact hne (List.eq_nil_of_length_eq_zero this)
+  refine ⟨_, valueNth_eq p k a d ha hpne hg, by simp, ?_⟩
+  rw [valueNth_eq (restrictPop p sel gsel) k (selArr sel a d) d (by simp [restrictPop, selArr]) hqne
+    (restrictPop_wf p sel gsel hcl)]
+  congr 1
+  show (List.range gsel.length).map _ = selArr gsel _ d
+  unfold selArr
+  conv => rhs; rw [← map_getD_range gsel, List.map_map]
+  apply List.map_congr_left
+  intro g' hg'
+  have hg'l : g' < gsel.length := List.mem_range.mp hg'
+  have hv := valuesOf_restrictPop p sel gsel hcl a d ha g' hg'l
+  unfold selArr at hv
+  rw [hv]
+  have hgn : gsel.getD g' 0 < p.n := hcl.2.1 _ (mem_getD_mem gsel g' hg'l)
+  simp only [Function.comp]
+  rw [getD_range_map _ _ _ _ hgn]
 
 end
 
